@@ -43,6 +43,7 @@ class Engine:
         self.max_depth = 400
         self.unknown_branches = 0
         self.base = []          # global preconditions (assumed on every path)
+        self.div_mode = 'assume'  # 'assume': denominators != 0 is a recorded assumption; 'fork': branch on zero
 
     def fresh(self, p='q'):
         self.k += 1
@@ -388,6 +389,18 @@ def quot(num, den):
         if den_s.as_fraction() == 0:
             raise ZeroDivisionError('symbolic division by constant zero')
         return SR(num / den_s)
+    if ENG.div_mode == 'direct':
+        # keep the quotient as a term (needed when the result is differentiated); definedness assumed
+        ENG.defs.append(den != 0)
+        return SR(num / den)
+    if ENG.div_mode == 'fork':
+        # definedness is NOT assumed: the path forks on den == 0 and the quotient is an arbitrary value there
+        # (numpy would produce inf/nan); claims about the result then fail on that branch
+        if ENG.branch(den == 0):
+            return SR(ENG.fresh('undef'))
+        q = ENG.fresh('q')
+        ENG.defs.append(q * den == num)
+        return SR(q)
     q = ENG.fresh('q')
     ENG.defs.append(z3.And(den != 0, q * den == num))
     return SR(q)
